@@ -37,6 +37,17 @@ func oracleHook(o fsOpts, dir string) func(i int, s *h.Session, st *h.Step) {
 	}
 	hs := &hookState{}
 	return func(i int, s *h.Session, st *h.Step) {
+		if st.Directive {
+			// events around the instance: only the oracles that track the drive look at them
+			if has(o.oracles, "C16") || has(o.oracles, "C05") {
+				data, _ := os.ReadFile(s.E.Drive)
+				hs.started = true
+				hs.prevLen = int64(len(data))
+				hs.prevHash = sha256.Sum256(data)
+			}
+			hs.prevTree = nil
+			return
+		}
 		for _, p := range o.oracles {
 			var msgs []string
 			switch p {
@@ -50,6 +61,8 @@ func oracleHook(o fsOpts, dir string) func(i int, s *h.Session, st *h.Step) {
 				msgs = oracleC12(hs, s, st)
 			case "C01":
 				msgs = oracleC01(i, dir, s, st)
+			case "C16":
+				msgs = oracleC16(hs, i, dir, s, st)
 			case "C07":
 				msgs = oracleC07(i, dir, s, st)
 			case "C13":
@@ -711,6 +724,44 @@ func oracleC07(i int, dir string, s *h.Session, st *h.Step) []string {
 	})
 	if !ok {
 		msgs = append(msgs, "replay did not return")
+	}
+	return msgs
+}
+
+// ---------------------------------------------------------------------------------------
+// C16: Initialize over an existing tape never removes or rewrites tape content and appends
+// nothing when a root exists on the tape; when it succeeds the filesystem shows what a
+// from-scratch rebuild of that tape shows; later writes are retrievable and survive a rebuild
+// (the last two through the C01 comparison, which runs after every later call as well).
+func oracleC16(hs *hookState, i int, dir string, s *h.Session, st *h.Step) []string {
+	var msgs []string
+	data, _ := os.ReadFile(s.E.Drive)
+	if st.Call.Method == "initialize" && hs.started {
+		n := hs.prevLen
+		if int64(len(data)) < n || sha256.Sum256(data[:n]) != hs.prevHash {
+			msgs = append(msgs, "Initialize removed or rewrote tape content")
+		} else if int64(len(data)) != n {
+			// a root on the surviving tape?
+			items, _, _ := h.ScanTape(s.E.Drive, 0)
+			rootOnTape := false
+			for _, it := range items {
+				if it.Hdr != nil && it.Block*512 < n {
+					switch it.Hdr.Name {
+					case "/", "", ".", "./":
+						rootOnTape = true
+					}
+				}
+			}
+			if rootOnTape {
+				msgs = append(msgs, fmt.Sprintf("Initialize appended %d bytes although a root already exists on the tape", int64(len(data))-n))
+			}
+		}
+	}
+	hs.started = true
+	hs.prevLen = int64(len(data))
+	hs.prevHash = sha256.Sum256(data)
+	if st.Res == "ok" || st.Call.Method != "initialize" {
+		msgs = append(msgs, oracleC01(i, dir, s, st)...)
 	}
 	return msgs
 }
